@@ -690,8 +690,9 @@ def gen_recursive(r, depth=None):
     others = [m for m in members if m != ann]
     if family in ('cycle2', 'cycle3', 'random', 'helper', 'ring', 'ringchord') and others and r.random() < 0.35:
       recursive[r.choice(others)] = max(1, min(d, r.choice([2, 3, 5, 8, d])))
-  if second and r.random() < 0.25:
-    recursive[[p['name'] for p in preds if p['name'] in ('Z', 'Aa')][0]] = r.choice([3, 5, 11, 12])
+  if second and r.random() < 0.4:
+    # sometimes deep too: two iteratively unfolded components in one program
+    recursive[[p['name'] for p in preds if p['name'] in ('Z', 'Aa')][0]] = r.choice([3, 5, 11, 12, 21, 24, 30])
   for p_ in preds:
     # some predicates are written as one rule with `|` between what would be their rules
     if p_['kind'] in ('bag', 'distinct') and len(p_.get('rules') or []) >= 2 and r.random() < 0.25:
